@@ -141,7 +141,7 @@ def get_rect(x, p):
     mp, gfx, oldm, oldg = map_of(x)
     w, h = p['w'], p['h']
     cx = x.int('x', 0, 127)
-    cy = x.int('y', 0, 64 - h)        # the method's own assert: y+h <= 64
+    cy = x.int('y', 0, 63)            # documented: rows past 63 read as 0
     try:
         got = mp.get_rect_tiles(cx, cy, w, h)
     except Exception as e:
@@ -175,24 +175,28 @@ def set_rect(x, p):
 
 def rect_pixels(x, p):
     mp, gfx, oldm, oldg = map_of(x)
+    h = p.get('h', 1)
     cx = x.int('x', 0, 127)
     cy = x.int('y', 0, 63)
     try:
-        got = mp.get_rect_pixels(cx, cy, 1, 1)
+        got = mp.get_rect_pixels(cx, cy, 1, h)
     except Exception as e:
         x.check('get_rect_pixels does not raise', False, info=repr(e))
         return
-    tid = M.cell_get(oldm, oldg, cx, cy)
     exp = []
-    for r in range(8):
-        row = []
-        for c in range(8):
-            v = M.px_get(oldg, (tid % 16) * 8 + c, (tid // 16) * 8 + r)
-            row.append(Ite(tid == 0, 0, v))
-        exp.append(row)
+    for tr in range(h):
+        inside = cy + tr <= 63
+        tid = Ite(inside, M.cell_get(oldm, oldg, cx, Ite(inside, cy + tr, 0)),
+                  0)
+        for r in range(8):
+            row = []
+            for c in range(8):
+                v = M.px_get(oldg, (tid % 16) * 8 + c, (tid // 16) * 8 + r)
+                row.append(Ite(tid == 0, 0, v))
+            exp.append(row)
     x.out('row0', list(got[0]))
-    x.check_all('get_rect_pixels renders the tile (id 0 empty)',
-                same_rows(got, exp))
+    x.check_all('get_rect_pixels renders the tiles (id 0 and rows below the '
+                'map empty)', same_rows(got, exp))
 
 
 # --- gff ----------------------------------------------------------------------
@@ -366,7 +370,8 @@ HARNESSES = [
             quick=[dict(Q, shape=[2]), dict(Q, shape=[1, 2])],
             thorough=[dict(Q, shape=[2]), dict(Q, shape=[3, 1, 2]),
                       dict(Q, shape=[3, 3, 3], _budget=900)]),
-    Harness('rect_pixels', rect_pixels, logic='QF_AUFBV', quick=[Q]),
+    Harness('rect_pixels', rect_pixels, logic='QF_AUFBV',
+            quick=[Q, dict(Q, h=2)]),
     Harness('gff', gff, logic='QF_AUFBV',
             quick=[dict(Q, op=o) for o in ('set', 'clear', 'reset')]),
     Harness('sfx_note', sfx_note, logic='QF_AUFBV', quick=[Q]),
